@@ -66,6 +66,13 @@ type KPlan struct {
 	Status    []uint32        `json:"init_status,omitempty"`
 	InitRules []uint32        `json:"init_rules,omitempty"` // rule ids installed before the run
 	PortID    uint32          `json:"port_id"`
+	// Preload: so many ordinary, fault-free commands are issued on the client
+	// before the plan's operations (what a long-lived client has behind it).
+	// PreStyle picks the mix: 0 GetStatus, 1 synchronous setters, 2 NoWait setters
+	// then one WaitForPendingACKs, 3 a cycle of all commands, 4 like 3 with 1..3
+	// audit records ahead of every reply.
+	Preload   int             `json:"preload,omitempty"`
+	PreStyle  int             `json:"pre_style,omitempty"`
 	SeqStart  uint32          `json:"seq_start,omitempty"` // sequence number the transport used last (fast-forward towards the uint32 wrap)
 	Ops       []KOp           `json:"ops"`
 	Tasks     [][]KOp         `json:"tasks,omitempty"` // concurrent phase (closers / senders)
@@ -82,6 +89,9 @@ type KPlan struct {
 
 func (p *KPlan) Valid() bool {
 	if !(p.Scenario == 8 || p.Scenario == 16 || p.Scenario == 17 || p.Scenario == 18) {
+		return false
+	}
+	if p.Preload < 0 || p.Preload > 70000 || p.PreStyle < 0 || p.PreStyle > 4 || (p.Preload > 0 && p.Scenario == 18 && p.PreStyle > 2) {
 		return false
 	}
 	if p.Transport < 0 || p.Transport > 1 || p.ReplySize < 0 || p.ReplySize > 80 || len(p.Ops) > 250 || len(p.Tasks) > 4 {
@@ -316,6 +326,10 @@ func genInit(r *core.Rng, p *KPlan) {
 	p.Transport = r.Intn(2)
 	if r.Chance(1, 10) {
 		p.SeqStart = uint32(1<<32 - r.Range(1, 12)) // the counter wraps during this run
+	}
+	if r.Chance(1, 1500) {
+		p.Preload = core.Pick(r, 300, 600, 1100, 2100, 4200, 9000, 17000, 33000, 66000, 70000)
+		p.PreStyle = r.Intn(5)
 	}
 	if r.Chance(1, 2) {
 		p.Status = make([]uint32, kern.NWords)
@@ -702,6 +716,12 @@ func GenKPlanC18(r *core.Rng) *KPlan {
 	}
 	if r.Chance(1, 8) {
 		p.SeqStart = uint32(1<<32 - r.Range(1, 6)) // the sequence counter wraps during this run
+	}
+	if r.Chance(1, 1500) {
+		// a transport with a history: so many sends (style 0), receives (1), or datagrams parsed
+		// by the audit parser for a transport that keeps what the parser returned (2)
+		p.Preload = core.Pick(r, 300, 600, 1100, 2100, 4200, 9000, 17000, 33000, 66000, 70000)
+		p.PreStyle = r.Intn(3)
 	}
 	p.Auto = core.Pick(r, uint32(0), 0, 1, 1, 2, 4)
 	p.AutoSalt = r.U32()
